@@ -47,8 +47,19 @@ enum Pace {
 	Stalled(u64),
 }
 
+/// what keeps the sound itself from advancing while the decoder works
+#[derive(Debug, Clone, Copy, PartialEq)]
+enum Hold {
+	None,
+	/// pause() on the sound's handle before its first callback
+	Paused,
+	/// a start time ten seconds away
+	Delayed,
+}
+
 #[derive(Debug, Clone)]
 struct Case {
+	hold: Hold,
 	frames: usize,
 	looping: bool,
 	packets: Vec<usize>,
@@ -160,6 +171,9 @@ fn run_inner(c: &Case) -> Result<Outcome, Failure> {
 	if c.looping {
 		settings = settings.loop_region(..);
 	}
+	if c.hold == Hold::Delayed {
+		settings = settings.start_time(kira::StartTime::Delayed(Duration::from_secs(10)));
+	}
 	let data = StreamingSoundData::from_decoder(dec).with_settings(settings);
 	let mark = streamctl::mark();
 	let played: Result<StreamingSoundHandle<ScriptError>, PlaySoundError<ScriptError>> = match &mut track {
@@ -182,6 +196,9 @@ fn run_inner(c: &Case) -> Result<Outcome, Failure> {
 	};
 	let id = handle.verif_id();
 	streamctl::adopt(id, mark);
+	if c.hold == Hold::Paused {
+		handle.pause(instant());
+	}
 	let streams = [(id, log.clone())];
 	let mut out_all: Vec<f32> = vec![];
 	let mut stopped_at: Option<usize> = None;
@@ -211,7 +228,7 @@ fn run_inner(c: &Case) -> Result<Outcome, Failure> {
 		if let Pace::Starving(n) = c.pace {
 			streamctl::grant(id, n);
 		}
-		streamctl::wait_quiescent(&streams, Duration::from_millis(500));
+		streamctl::settle(&streams)?;
 		streamctl::set_callback_active(true);
 		let m = mgr.as_mut().unwrap();
 		let cb = m.backend_mut().callback(c.chunk, 2);
@@ -380,7 +397,9 @@ fn decode(src: &mut Src, ctx: &mut Ctx) -> Case {
 		let k = src.below(80) as usize;
 		let forever = src.below(2) == 1;
 		let place = [Place::Main, Place::SubTrack][src.below(2) as usize];
+		let hold = [Hold::None, Hold::Paused, Hold::Delayed][src.below(3) as usize];
 		return Case {
+			hold,
 			frames,
 			looping: false,
 			packets: vec![packet],
@@ -435,6 +454,7 @@ fn decode(src: &mut Src, ctx: &mut Ctx) -> Case {
 		end = End::StopAt(0);
 	}
 	Case {
+		hold: Hold::None,
 		frames,
 		looping,
 		packets: (0..src.usize_in(1, 3)).map(|_| src.pick(&[1usize, 7, 64, 1152])).collect(),
@@ -446,6 +466,14 @@ fn decode(src: &mut Src, ctx: &mut Ctx) -> Case {
 		chunk,
 		callbacks,
 	}
+	.with_hold(src)
+}
+
+impl Case {
+	fn with_hold(mut self, src: &mut Src) -> Self {
+		self.hold = [Hold::None, Hold::Paused, Hold::Delayed][src.weighted(&[3, 1, 1])];
+		self
+	}
 }
 
 impl Property for C10 {
@@ -456,7 +484,7 @@ impl Property for C10 {
 		"fault_enumeration"
 	}
 	fn rule(&self) -> &'static str {
-		"each case plays one streaming sound over a scripted decoder (index-coded frames, packet sizes 1..1152, seek granularity 1..64) through the real manager with a real decoding thread whose steps are scheduled through hook H2, under a fault plan (k-th decode() or seek() call fails once or forever), a scenario (main track, sub-track, sub-track paused beforehand; natural end, stop() before callback j, refused by a full track, track handle dropped, manager dropped, left playing) and a decoder pace (ahead, n steps per callback, stalled after m steps). Oracles: the decoder object is released (its Drop is observed) within 2 s of the sound finishing / being stopped / failing / being refused or discarded; the decode loop runs at most 2w+50 times in an idle window of w ms; after a decoder error the sound is Stopped, unloaded one callback later, silent from then on, and pop_error() yields the first error; without faults the audible frames are a strictly increasing subsequence of the source with at most one frame skipped per gap of silence. Enumeration: every stream length 1..24 x packet size 1..4 x every fault position (decode call k, first / later seek, once / forever) on the main track and a sub-track. Non-trivial = a fault after at least one good packet, a discard scenario, or a starving decoder; distinct = distinct decoded choices."
+		"each case plays one streaming sound over a scripted decoder (index-coded frames, packet sizes 1..1152, seek granularity 1..64) through the real manager with a real decoding thread whose steps are scheduled through hook H2, under a fault plan (k-th decode() or seek() call fails once or forever), a scenario (main track, sub-track, sub-track paused beforehand; the sound itself playing, paused through its handle before its first callback, or waiting for a start time ten seconds away; natural end, stop() before callback j, refused by a full track, track handle dropped, manager dropped, left playing) and a decoder pace (ahead, n steps per callback, stalled after m steps). Oracles: the decoder object is released (its Drop is observed) within 2 s of the sound finishing / being stopped / failing / being refused or discarded; the decode loop runs at most 2w+50 times in an idle window of w ms; after a decoder error the sound is Stopped, unloaded one callback later, silent from then on, and pop_error() yields the first error; without faults the audible frames are a strictly increasing subsequence of the source with at most one frame skipped per gap of silence. Enumeration: every stream length 1..24 x packet size 1..4 x every fault position (decode call k, first / later seek, once / forever) on the main track and a sub-track, with the sound playing, paused or waiting for its start time. Non-trivial = a fault after at least one good packet, a discard scenario, or a starving decoder; distinct = distinct decoded choices."
 	}
 	fn assumptions(&self) -> Vec<String> {
 		vec![
@@ -494,13 +522,15 @@ impl Property for C10 {
 				}
 				for (kind, k, forever) in plans {
 					for place in 0..2u64 {
-						tapes.push(vec![enc(0, 4), enc(frames - 1, 64), enc(packet - 1, 8), enc(kind, 3), enc(k, 80), enc(forever, 2), enc(place, 2)]);
+						for hold in 0..3u64 {
+							tapes.push(vec![enc(0, 4), enc(frames - 1, 64), enc(packet - 1, 8), enc(kind, 3), enc(k, 80), enc(forever, 2), enc(place, 2), enc(hold, 3)]);
+						}
 					}
 				}
 			}
 		}
 		vec![Enumeration {
-			name: "every fault position of short streams (length x packet size x k-th decode / seek call x once / forever x main track / sub-track)",
+			name: "every fault position of short streams (length x packet size x k-th decode / seek call x once / forever x main track / sub-track x sound playing / paused / waiting for its start time)",
 			tapes: Box::new(tapes.into_iter()),
 			exhaustive: true,
 		}]
